@@ -48,6 +48,10 @@ SIGS = [
     ("(channel, a: int = 1, **kw)", True),
     ("(chan, a=1, **kw)", "firstarg"),
     ("(a=1, channel=None, **kw)", "firstarg"),
+    ("(*, channel, a=1, **kw)", "firstarg"),
+    ("(*channel, a=1, **kw)", "firstarg"),
+    ("(a=1, *, channel, **kw)", "firstarg"),
+    ("(channel, /, a=1, **kw)", True),
     ("(channel, a=GLOBAL, **kw)", False),
     ("(channel, a: Undefined = 1, **kw)", False),
 ]
@@ -122,6 +126,12 @@ def purity(ck, tier, rng, scratch):
         if accepted:
             acc += 1
             ck.count("purity_accepted")
+            co = fn.__code__
+            if co.co_argcount < 1 or co.co_varnames[0] != "channel":
+                # the worker calls function(channel, **kwargs): the first POSITIONAL parameter must be `channel`
+                ck.fail("wrong-first-parameter-accepted", {**ex, "positional_parameters": list(co.co_varnames[:co.co_argcount])})
+                os.unlink(path)
+                continue
             if bad_static:
                 sig = "shadowed-builtin" if all(b in builtins.__dict__ for b in bad_static) else "non-builtin-global"
                 ck.fail("impure-function-accepted:" + sig, {**ex, "global_loads_not_builtin_or_shadowed": bad_static})
